@@ -1166,8 +1166,19 @@ func (m *ExpirationManager) RevokeByToken(ctx context.Context, te *logical.Token
 
 	// Revoke all the keys by marking them expired
 	for _, leaseID := range existing {
-		err := m.lazyRevokeInternal(ctx, leaseID)
+		// A lease lives in the namespace it was issued in, which is named by
+		// its ID and need not be the namespace of the token.
+		leaseNS, err := m.getNamespaceFromLeaseID(ctx, leaseID)
+		if err == namespace.ErrNoNamespace {
+			// The namespace is gone, and its leases with it.
+			continue
+		}
 		if err != nil {
+			return err
+		}
+
+		leaseCtx := namespace.ContextWithNamespace(ctx, leaseNS)
+		if err := m.lazyRevokeInternal(leaseCtx, leaseID); err != nil {
 			return err
 		}
 	}
